@@ -502,6 +502,26 @@ def rewire_scenarios(thorough):
     return out
 
 
+def zip_connect_scenarios():
+    """zip(maxsize=m) over two inputs, a third input attached with connect(); the attached input runs ahead of the others by more than
+    m elements (its producer does not wait): the zip must behave like one built over the three inputs - nothing dropped, index-wise."""
+    out = []
+    for m in (1, 2, 3):
+        for ahead in (m + 1, m + 3):
+            nodes = [{"kind": "source", "ups": []}, {"kind": "source", "ups": []}, {"kind": "source", "ups": []},
+                     {"kind": "zipmax", "ups": [0, 1], "maxsize": m}, {"kind": "sink", "mode": "sync", "f": ["id"], "ups": [3]}]
+            v = [0]
+
+            def em(n):
+                v[0] += 1
+                return {"op": "emit", "node": n, "val": v[0], "md": [{"tag": v[0], "ref": v[0]}]}
+            script = [{"op": "connect", "up": 2, "down": 3}] + [em(2) for _ in range(ahead)]
+            for _ in range(ahead):
+                script += [em(0), em(1)]
+            out.append((nodes, script))
+    return out
+
+
 ASYNC_KINDS = ["buffer", "delay", "rate_limit", "map_async", "timed_window", "partition_timeout"]
 ASYNC_SIGS = ("delivery-lost", "delivery-duplicated", "delivery-reordered-or-altered")
 
@@ -536,7 +556,7 @@ def run(ctx):
     from . import _async_common as A
     A.sweep(ctx, 60 if not ctx.thorough() else 1500, ASYNC_KINDS, ["lossless"], ASYNC_SIGS, allow_zip=False, opts={"p_rewire": 0.22})
     from .. import asynccheck as ac
-    for i, (nodes, script) in enumerate(rewire_scenarios(ctx.thorough())):
+    for i, (nodes, script) in enumerate(rewire_scenarios(ctx.thorough()) + zip_connect_scenarios()):
         case, obs = ac.run_adaptive(nodes, ctx.rng, len(script), opts={"script": script}, flavour=("future", "coro", "tornado")[i % 3])
         ac.evaluate(ctx, case, obs, ["lossless"], ASYNC_SIGS)
         ctx.count("directed:async-node-rewired")
